@@ -17,6 +17,7 @@ CONSTANTS
  KChoices <- MC_KChoices
  Deltas <- MC_Deltas
  Faults <- MC_Faults
+ PairMode <- MC_PairMode
  EMIT <- MC_EMIT
 INIT Init
 NEXT Next
